@@ -5,6 +5,7 @@ CONSTANTS
   MaxPend = 1
   Threads = {"req"}
   UseLock = TRUE
+  CheckRunning = TRUE
 INVARIANT FTypeOK
 INVARIANT FramingOK
 INVARIANT FramingEnd
